@@ -34,6 +34,9 @@ func (p Person) Sum(a, b int) int           { return a + b + p.Age }
 func (p Person) Nothing()                   {}
 func (p Person) Two() (int, error)          { return 1, nil }
 func (p Person) Var(xs ...string) string    { return strings.Join(xs, ",") + "!" }
+func (p Person) Join(sep string, parts ...string) string {
+	return strings.Join(parts, sep) + "."
+}
 func (p Person) Any(v interface{}) string   { return "any:" + Repr(v) }
 func (p Person) Zero() string               { return "zero:" + p.Name }
 func (p Person) F64(f float64) float64      { return f * 2 }
